@@ -3,7 +3,7 @@ C01 — CIM objects survive the CIM-XML wire format unchanged.
 Property theorems only (helper lemmas: Proofs/Lemmas/XmlText.lean, Proofs/Lemmas/CimXml.lean).
 -/
 import Proofs.Lemmas.XmlText
-import Proofs.Lemmas.CimXml18
+import Proofs.Lemmas.CimXml21
 import Proofs.Props.XmlSyntax
 
 namespace C01
@@ -128,7 +128,7 @@ def exampleInst : Inst :=
   .mk "CIM_Foo".toList
     (some (.inst "CIM_Foo".toList (some "host".toList) (some "root/cimv2".toList)
       [.mk (some "Ref".toList) (.ref (.inst "CIM_Bar".toList none (some "root".toList)
-          [.mk (some "Id".toList) (.int .u8 7), .mk (some "Inner".toList) (.ref (.cls "CIM_Baz".toList none none))])),
+          [.mk (some "Id".toList) (.int .u8 7), .mk (some "Inner".toList) (.ref (.inst "CIM_Baz".toList none none [.mk (some "k".toList) (.str "v".toList)]))])),
        .mk (some "n".toList) (.pyint 3)]))
     [.mk "Emb".toList "string".toList (.scalar (.einst toyInst)) false none none none none (some "instance".toList) [],
      .mk "Arr".toList "uint8".toList (.array [.int .u8 1, .null, .int .u8 255]) true (some 3) none none none none
@@ -139,7 +139,8 @@ theorem exampleInst_sendable : Sendable toySpec (.inst exampleInst) := by
   simp [Sendable, SendableInst, SendableInstBody, SendablePropList, SendableProp, SendablePropVal, SendableEmbAtom,
     SendableQuals, SendableQual, SendablePath, SendableKeys, SendableKey, exampleInst, toyInst, toySpec, PlainVal,
     PlainAtom, AtomOk, typeName, IntTy.name, IntTy.lo, IntTy.hi, NoDupNames, NoDupKeyNames, Key.name, lowerAscii,
-    Prop_.name, Qual.name]
+    Prop_.name, Qual.name, NsOk, keyValueOk]
+  decide
 
 example : embDepth (.inst exampleInst) = 1 := by decide
 
@@ -274,6 +275,7 @@ example : (par (Xml.ser (encObj Proofs.CimXml.toyCodec.toCodec (.prop
   · simp [Proofs.CimXml.Sendable, Proofs.CimXml.SendableProp, Proofs.CimXml.SendablePropVal,
       Proofs.CimXml.SendableQuals, Proofs.CimXml.NoDupNames, Proofs.CimXml.PlainAtom, Proofs.CimXml.typeName,
       Proofs.CimXml.AtomOk]
+    decide
   · decide
   · simp only [encObj, encProp, encQuals, encVal, atomText]; decide
   · simp only [encObj, encProp, encQuals, encVal, atomText]; decide
@@ -394,7 +396,7 @@ def exampleInst2 : Inst :=
   .mk "CIM_Foo".toList
     (some (.inst "CIM_Foo".toList (some "host".toList) (some "root/cimv2".toList)
       [.mk (some "Ref".toList) (.ref (.inst "CIM_Bar".toList none (some "root".toList)
-          [.mk (some "Id".toList) (.int .u8 7), .mk (some "Inner".toList) (.ref (.cls "CIM_Baz".toList none none))])),
+          [.mk (some "Id".toList) (.int .u8 7), .mk (some "Inner".toList) (.ref (.inst "CIM_Baz".toList none none [.mk (some "k".toList) (.str "v".toList)]))])),
        .mk (some "n".toList) (.pyint 3)]))
     [.mk "Emb".toList "string".toList (.scalar (.einst Proofs.CimXml.toyInst)) false none none none none
        (some "instance".toList) [],
@@ -408,7 +410,8 @@ theorem exampleInst2_sendable : Sendable toySpec (.inst exampleInst2) := by
   simp [Sendable, SendableInst, SendableInstBody, SendablePropList, SendableProp, SendablePropVal, SendableEmbAtom,
     SendableQuals, SendableQual, SendablePath, SendableKeys, SendableKey, exampleInst2, toyInst, toySpec, PlainVal,
     PlainAtom, AtomOk, typeName, IntTy.name, IntTy.lo, IntTy.hi, NoDupNames, NoDupKeyNames, Key.name, lowerAscii,
-    Prop_.name]
+    Prop_.name, NsOk, keyValueOk]
+  decide
 
 open Proofs.CimXml in
 theorem exampleInst2_clean : CleanObj (.inst exampleInst2) := by
@@ -421,5 +424,57 @@ example : (par (Xml.ser (encObj toyCodec.toCodec (.inst exampleInst2)))).map (de
     some (.ok (wdObj toyCodec.toCodec (.inst exampleInst2))) :=
   C01_end_to_end toyCodec toySpec toyCodecOk toyCodecClean _ exampleInst2_sendable exampleInst2_clean 1
     (by simp [embDepth, depthInst, depthProps, depthProp, depthVal, depthAtom, depthAtoms, exampleInst2, toyInst])
+
+/-! ### the error side of the decoder (model-level statement of "no other exception class") -/
+
+/-- **Only documented errors.**  For EVERY tree (well formed or not, encoder output or not), every codec and
+    every depth, the decoder answers an object or one of exactly three exception classes: CIMXMLParseError,
+    XMLParseError (the text of an embedded object is not XML) or RecursionError (embedded nesting beyond the
+    depth allowed — Python's recursion limit stands behind the real code). -/
+theorem C01_decode_only_documented_errors (C : DecCodec) (d : Nat) (t : Xml) :
+    (∃ o, decode C d t = .ok o) ∨ decode C d t = .error .cimXmlParseError ∨
+    decode C d t = .error .xmlParseError ∨ decode C d t = .error .recursionError := by
+  have h := Proofs.CimXml.decode_docSafe C d t
+  cases hd : decode C d t with
+  | ok o => exact Or.inl ⟨o, rfl⟩
+  | error e =>
+    right
+    rcases h.out e hd with h1 | h1 | h1 <;> subst h1
+    · exact Or.inl rfl
+    · exact Or.inr (Or.inl rfl)
+    · exact Or.inr (Or.inr rfl)
+
+/-- without embedded-object parsing (depth reached) the class is RecursionError, not a crash -/
+example (C : DecCodec) : embAt C 0 "<INSTANCE/>".toList = .error .recursionError := rfl
+
+open Proofs.CimXml in
+/-- **Invalid TYPE is rejected.**  Whatever the other attributes and the children are: a PROPERTY /
+    PROPERTY.ARRAY / PARAMETER / PARAMETER.ARRAY whose TYPE is not one of ALL_CIMTYPES, a QUALIFIER /
+    QUALIFIER.DECLARATION whose TYPE is not one of QUALIFIER_CIMTYPES, and a METHOD whose TYPE is missing, not a CIM
+    type or 'reference' never decode to an object (the constructors' type setters; tables extracted from
+    pywbem/_cim_obj.py into Pywbem/Generated/CimTypes.lean). -/
+theorem C01_invalid_type_rejected (C : DecCodec) (d : Nat) (as : List (Str × Str)) (ks : List Xml) :
+    (cimTypeOk (getAttrD as "TYPE" "") = false → ∀ o,
+      decode C d (.elem "PROPERTY".toList as ks) ≠ .ok o ∧ decode C d (.elem "PROPERTY.ARRAY".toList as ks) ≠ .ok o ∧
+      decode C d (.elem "PARAMETER".toList as ks) ≠ .ok o ∧ decode C d (.elem "PARAMETER.ARRAY".toList as ks) ≠ .ok o) ∧
+    (qualTypeOk (getAttrD as "TYPE" "") = false → ∀ o,
+      decode C d (.elem "QUALIFIER".toList as ks) ≠ .ok o ∧
+      decode C d (.elem "QUALIFIER.DECLARATION".toList as ks) ≠ .ok o) ∧
+    ((∀ rt, Xml.attr as "TYPE".toList = some rt → cimTypeOk rt = false ∨ rt = "reference".toList) → ∀ o,
+      decode C d (.elem "METHOD".toList as ks) ≠ .ok o) := by
+  unfold decode
+  refine ⟨fun h o => ⟨?_, ?_, ?_, ?_⟩, fun h o => ⟨?_, ?_⟩, fun h o => ?_⟩
+  · rw [decodeTop_PROPERTY]; exact neverOk_bind_l (decProperty_needs_type C _ _ as ks h) o
+  · rw [decodeTop_PROPERTY_ARRAY]; exact neverOk_bind_l (decPropertyArray_needs_type C _ _ as ks h) o
+  · rw [decodeTop_PARAMETER]; exact neverOk_bind_l (decParameter_needs_type C _ as ks (Or.inl rfl) h) o
+  · rw [decodeTop_PARAMETER_ARRAY]; exact neverOk_bind_l (decParameter_needs_type C _ as ks (Or.inr rfl) h) o
+  · rw [decodeTop_QUALIFIER]; exact neverOk_bind_l (decQualifier_needs_type C _ as ks h) o
+  · rw [decodeTop_QUALIFIER_DECLARATION]; exact neverOk_bind_l (decQualDecl_needs_type C _ as ks h) o
+  · rw [decodeTop_METHOD]; exact neverOk_bind_l (decMethod_needs_type C _ as ks h) o
+
+/-- non-vacuity: `String`, `uint128`, `` are not CIM types; `reference` is a CIM type but not a qualifier type -/
+example : cimTypeOk "String".toList = false ∧ cimTypeOk "uint128".toList = false ∧ cimTypeOk [] = false ∧
+    cimTypeOk "reference".toList = true ∧ qualTypeOk "reference".toList = false ∧ qualTypeOk "uint8".toList = true := by
+  decide
 
 end C01
